@@ -42,6 +42,11 @@ def dimset(universe, letters=None) -> fd.DimensionSet:
     return fd.DimensionSet(dim_list=[dimension(udim(universe, l)) for l in letters])
 
 
+def code_base(universe):
+    """radix of the label code: 10 for the usual small dimensions, larger when a dimension is long"""
+    return max(10, 1 + max([len(d["items"]) for d in universe["dims"]] + [0]))
+
+
 _SALT = {"x": 0, "y": 1, "z": 2, "w": 3, "p": 4, "q": 5}
 
 
@@ -52,6 +57,7 @@ def value_fn(universe, adesc):
     mode = adesc.get("mode", "coded")
     tag = adesc.get("tag", "x")
     uorder = [d["letter"] for d in universe["dims"]]
+    B = code_base(universe)
 
     if mode == "coded":
         salt = _SALT.get(tag, 7)
@@ -60,7 +66,7 @@ def value_fn(universe, adesc):
             code = 0
             for l in letters:
                 k = uorder.index(l)
-                code += (items[l].index(lab[l]) + 1) * 10**k
+                code += (items[l].index(lab[l]) + 1) * B**k
             return float(code * (salt + 1) + salt)
 
         return f
@@ -74,7 +80,7 @@ def value_fn(universe, adesc):
             code = 0
             for l in letters:
                 k = uorder.index(l)
-                code += (items[l].index(lab[l]) + 1) * 10**k
+                code += (items[l].index(lab[l]) + 1) * B**k
             return int(code * (salt + 1) + salt) - 15
 
         return f
